@@ -32,9 +32,18 @@ def handle (α : Type) [Arith α] [Wire α] : List Sexp → Sexp
   | [.atom "linearize", m, b, d] =>
     match (Model.dec m : Option (Model α)), (decBounds b : Option (BoundsMap α)), (decDomain d : Option (List (DomVar α))) with
     | some m, some b, some d =>
-      match linearizeWith m b d with
-      | .ok lm => app "ok" [lm.enc]
-      | .error e => encErr e
+      -- `Linearizer::linearize` runs the collapse check first, on its scratch context (declared domains, the
+      -- bounds of `analyze(&domain, &[])`; fix e35561f); then the lowering with the bounds handed in
+      -- DEFAULT_TOLERANCE = 1e-9 (`Gen.boundsToleranceText`), in the wire format of numbers (IEEE bits)
+      match (decNumS (.atom "#x3e112e0be826d695") : Option α) with
+      | some tol =>
+        match collapseCheckAll m (Compile.scratchState m tol Gen.boundsMaxSteps) with
+        | .error e => encErr e
+        | .ok _ =>
+          match linearizeWith m b d with
+          | .ok lm => app "ok" [lm.enc]
+          | .error e => encErr e
+      | none => app "err" [.atom "decode"]
     | _, _, _ => app "err" [.atom "decode"]
   | [.atom "linearize-full", m, tol] =>
     match (Model.dec m : Option (Model α)), (decNumS tol : Option α) with
